@@ -405,6 +405,32 @@ def batchnorm_cases(tier):
     return cases
 
 
+def batchnorm_reuse_cases(tier):
+    """the same BatchNorm layer applied again in the OTHER mode between the forward and the backward of its first application: the first result is still differentiated
+    as the function that was computed (statistics saved by value, not read again at backward time; buffers not overwritten in place)"""
+    m = nn()
+    cases = []
+    for cls, shape in ((m.BatchNorm1d, (3, 2)), (m.BatchNorm2d, (2, 2, 1, 2))):
+        for first_eval in (True, False):
+            def build(T, K, cls=cls, first_eval=first_eval):
+                from synapgrad.tensor import Tensor
+                from synapgrad.nn.modules import Parameter
+                L = cls(2, dtype=T["x"].data.dtype)
+                L.weight, L.bias = Parameter(T["gamma"]), Parameter(T["beta"])
+                T["gamma"], T["beta"] = L.weight, L.bias
+                L.running_mean = Tensor(np.array(T["rm"].data))
+                L.running_var = Tensor(np.array(T["rv"].data))
+                (L.eval if first_eval else L.train)()
+                y1 = L(T["x"])
+                (L.train if first_eval else L.eval)()
+                L(T["x2"])
+                return y1
+            cases.append(VCase("nn." + cls.__name__, {"op": "nn." + cls.__name__, "shape": shape, "layer_reused_before_backward": True, "first_use": "eval" if first_eval else "train"},
+                               [Leaf("x", shape), Leaf("x2", shape, "any", False), Leaf("gamma", (2,)), Leaf("beta", (2,)), Leaf("rm", (2,), "any", False), Leaf("rv", (2,), "pos", False)],
+                               build, functions=("synapgrad.nn.layers.BatchNorm.forward", NF_ + "batch_norm"), timeout_ms=30000))
+    return cases
+
+
 def _arr(vals):
     import sys
     tm = sys.modules["synapgrad.tensor"]
@@ -497,7 +523,7 @@ def zero_extent_cases(tier):
 def all_cases(tier="quick"):
     from .tensor_ops import layout_variants
     cases = []
-    for g in (activation_cases, loss_cases, linear_cases, conv_cases, pool_cases, fold_cases, batchnorm_cases, dropout_cases, zero_extent_cases):
+    for g in (activation_cases, loss_cases, linear_cases, conv_cases, pool_cases, fold_cases, batchnorm_cases, batchnorm_reuse_cases, dropout_cases, zero_extent_cases):
         cases.extend(g(tier))
     base = list(cases)
     cases.extend(flag_variants(base, tier))
